@@ -145,4 +145,64 @@ func init() {
 		Assumptions: modelAssumptions,
 		Uses: []core.Use{{E: eIndexes, Quick: 250, Thorough: 5000}},
 	})
+
+	eOrder := &core.Engine{Name: "pure-order", Run: RunOrder}
+	eRound := &core.Engine{Name: "roundtrip", Run: RunRoundTrip}
+	eBackends := &core.Engine{Name: "backends-lockstep", Run: RunBackends}
+	eCursor := &core.Engine{Name: "pure-cursor", Run: RunCursor}
+	eCritPure := &core.Engine{Name: "criteria-pure", Run: RunCriteriaPure}
+	eCritDB := &core.Engine{Name: "criteria-db", Run: RunCriteriaDB}
+	eIndex := &core.Engine{Name: "pure-index", Run: RunIndex}
+	eNorm := &core.Engine{Name: "pure-normalize", Run: RunNormalize}
+	eExport := &core.Engine{Name: "export-import", Run: RunExportImport}
+	eSweep := &core.Engine{Name: "sweep", Run: RunSweep}
+
+	core.Register(&core.PropSpec{
+		ID: "C10", Level: "exploration",
+		Rule: "the sign of clover's comparison is observed through Criteria.Satisfy (exactly one of Gt/Lt/Eq must hold on a one-field document) and the index key bytes through index.Add on a recording transaction; case 0 enumerates ALL ordered pairs and all triples of a ~220-value boundary pool (integer extremes, 2^53+-1, 2^63+-1, -0.0, +-Inf, subnormals, 0x00/0xFF strings, prefix families, nested and empty containers, times 1700..2261 in several zones), the other cases random pools of 70 values; checked: reflexivity, antisymmetry, transitivity, agreement with the documented order (exact integer/float comparison), and sign(bytes.Compare(key(a),key(b))) = sign(a,b) inside 2^53 / from 1970. A cell is <type a|type b|relation|boundary class a|boundary class b>.",
+		Assumptions: []string{"an integer beyond 2^53 against a float is outside the property (counted as inconclusive)", "NaN is not generated"},
+		Uses: []core.Use{{E: eOrder, Quick: 40, Thorough: 1500}},
+	})
+	core.Register(&core.PropSpec{
+		ID: "C11", Level: "exploration",
+		Rule: "documents of depth <= 4 with every type at every position (integer extremes, -0.0, +-Inf, empty containers, arbitrary byte strings, times before 1970 / beyond 2262 / with zone offsets and nanoseconds, times inside arrays and inside objects inside arrays) written through Insert, Save, ReplaceById, UpdateById, Update and read back by FindById and FindAll before and after close/reopen, compared by a strict recursive walk (Go type and value at every path, times by instant and offset). A cell is <container path shape>leaf type | backend | before/after reopen>.",
+		Assumptions: []string{"zone offsets are whole minutes (Go's own time encoding mangles negative sub-minute offsets)"},
+		Uses: []core.Use{{E: eRound, Quick: 300, Thorough: 8000}},
+	})
+	core.Register(&core.PropSpec{
+		ID: "C15", Level: "exploration",
+		Rule: "(1) one seeded history (ids always supplied) is replayed on bbolt, badger on disk with the shipped default options and badger in memory; the transcripts (outcome class of every call, id sequence of every result, counts, catalog listings, and the outcome class of 27 calls after Close and after a second Close) must be identical line by line, and each is also compared with the model. (2) cursor contract of each adapter against a sorted slice: random key sets with nil and empty values, committed base plus pending sets/deletes, forward and reverse seeks to present / absent / before-first / after-last targets, inside the writing transaction and in a read transaction. Cells: <lockstep backends|length class>, <adapter|direction|target class|tx phase|empty values>.",
+		Assumptions: modelAssumptions,
+		Uses: []core.Use{{E: eBackends, Quick: 60, Thorough: 1500}, {E: eCursor, Quick: 300, Thorough: 8000}},
+	})
+	core.Register(&core.PropSpec{
+		ID: "C16", Level: "exploration",
+		Rule: "random <criteria, document> pairs evaluated through Criteria.Satisfy and compared with the model and relationally (double negation, De Morgan, commutativity, Neq = Not(Eq), NotExists = Not(Exists), In = disjunction of equalities, Contains = conjunction of single Contains); the same identities on FindAll result sets of a live database with and without indexes (the planner rewrites negations); the same integer literal supplied as every Go numeric kind, bare / inside In / inside Contains / inside nested slices and maps; Field(name) vs \"$name\" operands to present, nil and absent fields. A cell is <identity|truth value|absent field involved> (both truth values are separate cells), <literal kind|operator|indexed>, <fieldref|operator|target|indexed>.",
+		Assumptions: modelAssumptions,
+		Uses: []core.Use{{E: eCritPure, Quick: 120, Thorough: 4000}, {E: eCritDB, Quick: 80, Thorough: 2500}},
+	})
+	core.Register(&core.PropSpec{
+		ID: "C17", Level: "exploration",
+		Rule: "an index is populated through index.Add on a real transaction of bbolt / badger / the harness's memory store (duplicates, nil, mixed types, sibling indexes on field+'y' and field+'.y', another collection and document keys next to it), then IterateRange runs for ranges whose bounds are drawn from every stored value, neighbours and type boundaries x both inclusivity flags x both directions (at least one non-nil bound, or the nil-only range), inside the writing transaction and after commit; expected = entries whose value lies in the range under the model order; also full Iterate, stop by sentinel and by foreign error after j calls, Intersect (never excludes a common value) and IsEmpty. A cell is <bound types|inclusivity|direction|bound hits a stored value|tx phase|backend> with a non-empty, non-total result.",
+		Assumptions: []string{"order among entries with equal values is not specified and not checked"},
+		Uses: []core.Use{{E: eIndex, Quick: 160, Thorough: 4000}},
+	})
+	core.Register(&core.PropSpec{
+		ID: "C18", Level: "exploration",
+		Rule: "Go values filled by reflection over 17 struct types (clover rename / omitempty / both / empty name, json tags, embedded value and pointer, nested, unexported fields, named kinds) and 40 other types (every integer width, floats, pointers up to depth 3 incl. to times, maps, slices, arrays, interfaces) are normalised through Document.Set and NewDocumentOf and compared with an independent reference normaliser; canonical dynamic types everywhere, determinism, idempotence; 15 unsupported values must leave the document unchanged at 4 paths; Set/Get/Has/Fields path laws on random path sequences; struct -> document -> Unmarshal round trip for 14 types. A cell is <Go kind|pointer depth|struct?|normal-form type>, <unsupported type>, <roundtrip type>.",
+		Assumptions: []string{"[]byte / [N]byte values are outside the domain (clover deliberately keeps byte slices as they are)", "embedded pointers are non-nil; embedded non-struct types are not generated"},
+		Uses: []core.Use{{E: eNorm, Quick: 100, Thorough: 4000}},
+	})
+	core.Register(&core.PropSpec{
+		ID: "C19", Level: "exploration",
+		Rule: "collections of JSON-representable documents (numbers within 2^53, valid UTF-8 incl. escapes, nested maps/slices, times with zones), with or without indexes, are exported (raw store snapshot must be unchanged), imported under a new name and compared document by document with the JSON image of the model; twelve failing imports (existing target, missing file, directory, truncated / non-array / non-object / empty / garbage JSON, malformed and duplicate ids, bad _expiresAt) and two failing exports must leave the raw store byte-identical. A cell is <doc count class|indexed|backend>, <json value shape>, <failure kind|backend>.",
+		Assumptions: modelAssumptions,
+		Uses: []core.Use{{E: eExport, Quick: 200, Thorough: 5000}},
+	})
+	core.Register(&core.PropSpec{
+		ID: "C20", Level: "exploration",
+		Rule: "hostile-call sweep: ~57 criteria shapes that stress the planner's type assertions (negations of In/Like/Exists/Contains/MatchFunc bare and under And/Or, triple and quadruple negation, field-reference operands on indexed fields, nil and container operands, empty In/Contains, odd paths, contradictory ranges, a 14-deep chain) x collection present / dropped / never created x 6 index configurations x 11 sort/skip/limit windows through FindAll, Count, Exists, FindFirst, ForEach, Update, UpdateFunc, Delete; point operations on present and missing documents/collections; the document, query-builder and index APIs with awkward arguments; the whole battery after Close and after a second Close; every call runs under recover(), the worker-death detector and the stall detector. A cell is <criteria shape|collection state|index configuration|backend> or <after-close|operation|outcome|backend>.",
+		Assumptions: []string{"'never blocks' is decided as bounded progress: no store/API progress and no CPU time for 90 s with a call outstanding", "callbacks do not re-enter the DB"},
+		Uses: []core.Use{{E: eSweep, Quick: 60, Thorough: 1500}, {E: eGeneral, Quick: 40, Thorough: 600}},
+	})
 }
